@@ -117,6 +117,11 @@ def polygon_vertices(rng, L, cx, cy, kind=None):
         pts = pts[:rng.randint(5, len(pts))]
     else:  # rectilinear L-shape
         pts = [(-1, -1), (1, -1), (1, 0), (0, 0), (0, 1), (-1, 1)]
+    # vertex order is part of the input: either orientation, any starting vertex
+    if rng.random() < 0.5:
+        pts = pts[::-1]
+    k = rng.randrange(len(pts))
+    pts = list(pts[k:]) + list(pts[:k])
     xs = [cx + L * 0.5 * p[0] for p in pts]
     ys = [cy + L * 0.5 * p[1] for p in pts]
     return xs, ys
@@ -208,7 +213,7 @@ def compound_spec(rng, depth, leaf, include=None):
 
 # ---------------------------------------------------------------------------
 # WCS family
-def wcs_spec(rng, proj=None, parity=None, frame=None, scale=None, crval=None, conformal=False):
+def wcs_spec(rng, proj=None, parity=None, frame=None, scale=None, crval=None, conformal=False, form=None):
     proj = proj or rng.choice(['TAN', 'SIN'] if conformal else ['TAN', 'SIN', 'CAR'])
     frame = frame or rng.choice(['icrs', 'fk5', 'galactic'] if conformal else ['icrs', 'fk5', 'fk4', 'galactic'])
     if scale is None:
@@ -239,6 +244,15 @@ def wcs_spec(rng, proj=None, parity=None, frame=None, scale=None, crval=None, co
            'CRPIX1': rng.uniform(0, 500), 'CRPIX2': rng.uniform(0, 500),
            'CD1_1': cd[0][0], 'CD1_2': cd[0][1], 'CD2_1': cd[1][0], 'CD2_2': cd[1][1],
            'CUNIT1': 'deg', 'CUNIT2': 'deg'}
+    # the same linear transformation can be written three ways in a header: a CD matrix, PC + signed CDELT (the
+    # classic East-left CDELT1 < 0), or PC = CD with unit CDELT (what WCS.to_header() writes for a CD-matrix WCS)
+    form = form or rng.choice(['cd', 'cd', 'cd', 'pc-signed-cdelt', 'pc-unit-cdelt'])
+    if form != 'cd':
+        for k in ('CD1_1', 'CD1_2', 'CD2_1', 'CD2_2'):
+            del hdr[k]
+        d1, d2 = (-scale, scale) if form == 'pc-signed-cdelt' else (1.0, 1.0)
+        hdr.update({'CDELT1': d1, 'CDELT2': d2, 'PC1_1': cd[0][0] / d1, 'PC1_2': cd[0][1] / d1,
+                    'PC2_1': cd[1][0] / d2, 'PC2_2': cd[1][1] / d2})
     if frame == 'icrs':
         hdr['RADESYS'] = 'ICRS'
     elif frame == 'fk5':
@@ -249,7 +263,7 @@ def wcs_spec(rng, proj=None, parity=None, frame=None, scale=None, crval=None, co
         hdr['RADESYS'] = 'FK4'
         hdr['EQUINOX'] = 1950.0
     return {'t': 'wcs', 'hdr': hdr, 'frame': frame, 'proj': proj, 'scale': scale, 'parity': parity,
-            'rot_deg': math.degrees(rot)}
+            'rot_deg': math.degrees(rot), 'form': form}
 
 
 # ---------------------------------------------------------------------------
@@ -271,8 +285,9 @@ def sky_region_spec(rng, cls=None, frame=None, lon=None, lat=None, size_deg=None
                     meta_extra=None, angle=None):
     cls = cls or rng.choice(classes or ALL_SKY)
     frame = frame or rng.choice(SKY_FRAMES)
-    lon = rng.uniform(0, 360) if lon is None else lon
-    lat = rng.uniform(-80, 80) if lat is None else lat
+    # positions exactly on the equator / prime meridian of their frame are ordinary places on the sky
+    lon = rng.choice([rng.uniform(0, 360)] * 7 + [0.0, 180.0]) if lon is None else lon
+    lat = rng.choice([rng.uniform(-80, 80)] * 7 + [0.0, 0.0]) if lat is None else lat
     L = size_deg if size_deg is not None else logu(rng, 1e-4, 1.0)
     meta = meta_with_include(rng, include)
     if meta_extra:
